@@ -94,7 +94,7 @@ def lean_check(prop, tier):
 
 
 def write_replay(prop, seed, k, payload):
-    d = os.path.join(BUILD, 'replay')
+    d = os.path.join(os.environ.get('VERIF_EVIDENCE_DIR') or BUILD, 'replay')
     os.makedirs(d, exist_ok=True)
     path = os.path.join(d, '%s_seed%d_%d.json' % (prop, seed, k))
     with open(path, 'w') as f:
@@ -155,7 +155,13 @@ def check(prop, tier, seed):
     notes = []
     known_hits = {}
     # ---- 1. proofs
-    lean = lean_check(prop, tier)
+    if os.environ.get('VERIF_SKIP_LEAN') == '1':
+        # tooling only (tools/seed_matrix.py runs many checks in parallel against scratch copies of
+        # the repository; the proofs do not depend on the repository). Never used by MANIFEST commands.
+        lean = {'obligations': len(obligations().get(prop, {}).get('theorems', [])), 'discharged': 0, 'failed': [],
+                'theorems': [], 'build_ok': True, 'skipped': True}
+    else:
+        lean = lean_check(prop, tier)
     # ---- 2. correspondence
     suite_res = []
     evaluated = 0
@@ -302,8 +308,9 @@ def check(prop, tier, seed):
         'wall_s': round(wall, 2),
         'violations': len(violations),
     }
-    os.makedirs(os.path.join(VERIF, 'evidence'), exist_ok=True)
-    with open(os.path.join(VERIF, 'evidence', prop + '.json'), 'w') as f:
+    evdir = os.environ.get('VERIF_EVIDENCE_DIR') or os.path.join(VERIF, 'evidence')
+    os.makedirs(evdir, exist_ok=True)
+    with open(os.path.join(evdir, prop + '.json'), 'w') as f:
         json.dump(ev, f, indent=1, default=str)
     for l in kf_lines:
         print(l)
